@@ -1325,7 +1325,7 @@ def k12_defFuncs (pre : List String) (mode : WalkMode) : Def → List (String ×
   | .func f => if mode == .enum then [] else [(joinWith "/" (pre ++ [f.name]), f)]
   | .decorator f => if mode == .enum then [] else [(joinWith "/" (pre ++ [f.name]), f)]
   | .overloaded impl =>
-    if mode == .cls then (match impl with | some f => [(joinWith "/" (pre ++ [f.name]), f)] | none => []) else []
+    if mode == .enum then [] else (match impl with | some f => [(joinWith "/" (pre ++ [f.name]), f)] | none => [])
   | .cls name _ bases _ defs =>
     if mode == .enum then []
     else if isEnumClass bases then k12_defsFuncs (pre ++ [name]) .enum defs
@@ -1459,15 +1459,15 @@ theorem k12_walkDef_ok (env : AEnv) (mode : WalkMode) : (d : Def) → ∀ {s s' 
     split at h
     · rename_i hm
       rw [if_pos hm]
+      obtain ⟨_, rfl⟩ := k12_pure_ok h
+      exact k12_WalkOk.refl rfl rfl
+    · rename_i hm
+      rw [if_neg hm]
       cases impl with
       | some f => exact k12_walkFunc_walkOk h
       | none =>
         have := k12_walkNone_ok h
         exact k12_WalkOk.refl this.1 this.2
-    · rename_i hm
-      rw [if_neg hm]
-      obtain ⟨_, rfl⟩ := k12_pure_ok h
-      exact k12_WalkOk.refl rfl rfl
   | .cls name fullname bases removed defs, s, s', u, h, hne, hmt => by
     unfold walkDef at h
     unfold k12_defFuncs k12_defClasses
@@ -2754,6 +2754,17 @@ theorem k12_toplevel_mem_srcFuncs {mods : List SrcModule} {m : SrcModule} {f : F
     unfold k12_defFuncs
     rw [if_neg (by decide)]
     exact List.mem_singleton.2 rfl
+
+/-- a top-level overloaded function with an implementation is in the list of recorded functions -/
+theorem k12_toplevel_overloaded_mem_srcFuncs {mods : List SrcModule} {m : SrcModule} {f : FuncDef} (hm : m ∈ mods)
+    (hd : Def.overloaded (some f) ∈ m.defs) :
+    (replaceChar m.fullname '.' "/" ++ "/" ++ f.name, f) ∈ k12_srcFuncs mods := by
+  refine k12_mem_srcFuncs hm ?_
+  unfold k12_modFuncs
+  refine k12_mem_defsFuncs hd ?_
+  unfold k12_defFuncs
+  rw [if_neg (by decide)]
+  exact List.mem_singleton.2 rfl
 
 theorem k12_joinWith3 (a b c : String) : joinWith "/" ([a] ++ [b] ++ [c]) = a ++ "/" ++ b ++ "/" ++ c := by
   show joinWith "/" [a, b, c] = _
